@@ -231,6 +231,22 @@ func VTMRestart(K int) {
 	zzv.Assert("C09.restart.load", tm2.Load() == nil)
 	after := tm2.TargetsInfo()
 	vAssertResumed("C09.restart", K, after, want, before.IdleAt)
+	// C10: the idle-since instant survives the restart (and is cleared when targets are assigned)
+	if len(want) == 0 {
+		zzv.Cover("restart.idle")
+		zzv.Assert("C10.restart.idle.kept", after.IdleAt != nil && before.IdleAt != nil && zzv.TimeNs(*after.IdleAt) == zzv.TimeNs(*before.IdleAt))
+	} else {
+		zzv.Assert("C10.restart.idle.cleared", after.IdleAt == nil)
+	}
+	// a second restart (no update in between) changes nothing either
+	t2 := zzv.Time("t2")
+	timeNow = func() time.Time { return t2 }
+	tm3 := NewTargetsManager(dir, prometheus.NewRegistry(), vLogger())
+	zzv.Assert("C09.restart2.load", tm3.Load() == nil)
+	again := tm3.TargetsInfo()
+	if len(want) == 0 {
+		zzv.Assert("C10.restart2.idle.kept", again.IdleAt != nil && before.IdleAt != nil && zzv.TimeNs(*again.IdleAt) == zzv.TimeNs(*before.IdleAt))
+	}
 	zzv.Observe("restart", len(after.Status), after.IdleAt != nil)
 	zzv.Cover("restart.end")
 }
@@ -288,16 +304,28 @@ func VStoreCrash(K int) {
 	timeNow = func() time.Time { return t1 }
 	req2, want2 := vRequest(K, "r2")
 	mode := zzv.Choose("w2.mode", 5)
-	zzv.FSFaultNext(file, mode)
+	zzv.FSFaultNext("*", mode)
 	var err2 error
-	crashed := zzv.Crashed(func() { err2 = tm.UpdateTargets(req2) })
-	zzv.FSEmulate(file, zzv.Int("w2.offset"))
+	crashed := zzv.Crashed(func() {
+		if !zzv.FSSkip() {
+			err2 = tm.UpdateTargets(req2)
+		}
+	})
+	zzv.FSFaultEnd()
 	idle2 := tm.TargetsInfo().IdleAt
-	if !zzv.Symbolic() {
-		crashed = zzv.FaultCrashes(mode)
+	if zzv.FSSkip() {
+		// natively the untouched-store faults are produced by not running the update: the idle
+		// instant the new assignment would have had is the one the update computes
+		if len(want2) == 0 && idle2 == nil {
+			idle2 = &t1
+		} else if len(want2) != 0 {
+			idle2 = nil
+		}
 	}
-	zzv.Assert("C09.fault.outcome", crashed == zzv.FaultCrashes(mode))
-	_ = err2
+	if zzv.Symbolic() {
+		zzv.Assert("C09.fault.outcome", crashed == zzv.FaultCrashes(mode))
+	}
+	_, _ = err2, file
 
 	for start := 1; start <= 2; start++ {
 		ts := zzv.Time("t.start" + zzv.Itoa(start))
